@@ -254,20 +254,27 @@ def _emit(repo):
     w('def kindTable : List (Char × UKind) :=')
     w('  [' + ', '.join(kinds) + ']')
     w('')
-    hf = message._headerFormat
+    # message._headerFormat / _mtype / _hcode through public behaviour (harness/c03_probe.py; private names = fast path)
+    from harness import c03_probe as _P
+    try:
+        hf = _P.header_signature(message, marshal)
+        _mt = _P.class_by_type(message, marshal, hf)
+        _hc = _P.field_by_code(message, marshal, hf)
+    except _P.ProbeError as e:
+        raise TranslatorError(str(e))
     w('/-- `message._headerFormat`. -/')
     w('def headerFormat : List Char := [' + ', '.join(lchar(c) for c in hf) + ']')
     w('')
-    mt = sorted(message._mtype)
+    mt = sorted(_mt)
     if not all(isinstance(k, int) and 0 <= k < 256 for k in mt):
         raise TranslatorError('_mtype keys are not byte values')
     w('/-- keys of `message._mtype`. -/')
     w('def mtypeKeys : List Nat := [' + ', '.join(str(k) for k in mt) + ']')
     w('')
-    sigcodes = [k for k, v in message._hcode.items() if v == 'signature']
+    sigcodes = [k for k, v in _hc.items() if v == 'signature']
     if len(sigcodes) != 1:
         raise TranslatorError("_hcode does not map exactly one code to 'signature'")
-    others = sorted(v for k, v in message._hcode.items() if v != 'signature')
+    others = sorted(v for k, v in _hc.items() if v != 'signature')
     clash = [v for v in others if v in ('rawHeader', 'rawPadding', 'rawBody', 'serial', 'expectReply', 'autoStart', 'body')]
     if clash:
         raise TranslatorError('_hcode names an attribute that parseMessage itself uses: %r' % clash)
